@@ -341,10 +341,10 @@ theorem lookup_append (k' k : K) (l : Nat) (m : List (K × Nat)) :
     · exact ih
 
 theorem termWeights_isSome_iff : ∀ (r m : List (K × Nat)),
-    (termWeights m r).isSome = true ↔ (Compat m r ∧ Fn r)
-  | [], m => by simp [termWeights, Compat, Fn]
+    (legacyTermWeights m r).isSome = true ↔ (Compat m r ∧ Fn r)
+  | [], m => by simp [legacyTermWeights, Compat, Fn]
   | (k, l) :: r, m => by
-    unfold termWeights
+    unfold legacyTermWeights
     cases hlk : lookup k m with
     | none =>
       simp only
@@ -429,6 +429,50 @@ theorem functional_iff_Fn (r : List (K × Nat)) : functional r = true ↔ Fn r :
     · simp [hab]
 
 end TW
+
+
+/-! ### the `(key, leaf)`-keyed loop (code since 458e503) -/
+
+theorem mem_termWeights {K : Type} [DecidableEq K] : ∀ (r m : List (K × Nat)) (x : K × Nat),
+    x ∈ termWeights m r ↔ (x ∈ m ∨ x ∈ r)
+  | [], m, x => by simp [termWeights]
+  | q :: r, m, x => by
+    unfold termWeights
+    split
+    · rename_i hq
+      rw [mem_termWeights r m x]
+      have hq' : q ∈ m := by simpa using hq
+      constructor
+      · rintro (h | h)
+        · exact Or.inl h
+        · exact Or.inr (List.mem_cons_of_mem _ h)
+      · rintro (h | h)
+        · exact Or.inl h
+        · rcases List.mem_cons.mp h with rfl | h
+          · exact Or.inl hq'
+          · exact Or.inr h
+    · rw [mem_termWeights r (m ++ [q]) x]
+      simp [or_assoc]
+
+/-- one `ScoredTerm` per `(key, leaf)`: the loop never produces a pair twice -/
+theorem termWeights_nodup {K : Type} [DecidableEq K] : ∀ (r m : List (K × Nat)),
+    m.Nodup → (termWeights m r).Nodup
+  | [], m, h => by simpa [termWeights] using h
+  | q :: r, m, h => by
+    unfold termWeights
+    split
+    · exact termWeights_nodup r m h
+    · rename_i hq
+      apply termWeights_nodup r (m ++ [q])
+      have hq' : q ∉ m := by simpa using hq
+      rw [List.nodup_append]
+      refine ⟨h, by simp, ?_⟩
+      intro a ha b hb
+      simp at hb
+      subst hb
+      intro hab
+      subst hab
+      exact hq' ha
 
 /-! ### qualified terms of a plan -/
 
